@@ -1,7 +1,7 @@
 (* C04 -- property theorems only.  Proofs live in C04/Proofs*.v. *)
 From Coq Require Import NArith Arith List Bool.
 From DV Require Import Base.Outcome Base.Bytes Base.Lex Base.Names Base.PName C04.Gen C04.Model
-  C04.ProofsLabel C04.ProofsIter C04.ProofsRepr C04.ProofsData.
+  C04.ProofsLabel C04.ProofsIter C04.ProofsRepr C04.ProofsData C04.ProofsParsed C04.ProofsEmbed.
 Import ListNotations.
 Local Open Scope N_scope.
 
@@ -72,6 +72,26 @@ Print Assumptions C04_cmp_trans_repr.
 Theorem C04_chain_same_as_flat : forall p s b rb, Forall valid_label p -> Forall valid_label s -> valid_abs (p ++ s) -> valid_abs b -> denotes rb (b ++ [[]]) -> let ch := NChain (NFlat (wire_rel p)) (NFlat (wire_abs s)) in let fl := NFlat (wire_abs (p ++ s)) in m_name_eq ch rb = m_name_eq fl rb /\ m_name_cmp ch rb = m_name_cmp fl rb /\ m_name_hash ch = m_name_hash fl /\ m_lc_composed_cmp ch rb = m_lc_composed_cmp fl rb /\ m_composed_cmp ch rb = m_composed_cmp fl rb.
 Proof. exact chain_same_as_flat. Qed.
 Print Assumptions C04_chain_same_as_flat.
+
+Theorem C04_denotes_parsed : forall m p ls, plabels m (pn_pos p) (pn_len p) ls -> flat_ok m p ls -> denotes (NParsed m p) ls.
+Proof. exact denotes_parsed. Qed.
+Print Assumptions C04_denotes_parsed.
+
+Theorem C04_denotes_parsed_pname : forall m p n, pname_labels m p = Ok (n, true) -> flat_ok m p (n ++ [[]]) -> denotes (NParsed m p) (n ++ [[]]).
+Proof. exact denotes_parsed_pname. Qed.
+Print Assumptions C04_denotes_parsed_pname.
+
+Theorem C04_parsed_same_as_flat : forall m p n b rb, pname_labels m p = Ok (n, true) -> flat_ok m p (n ++ [[]]) -> valid_abs n -> valid_abs b -> denotes rb (b ++ [[]]) -> let pa := NParsed m p in let fl := NFlat (wire_abs n) in m_name_eq pa rb = m_name_eq fl rb /\ m_name_cmp pa rb = m_name_cmp fl rb /\ m_name_hash pa = m_name_hash fl /\ m_lc_composed_cmp pa rb = m_lc_composed_cmp fl rb /\ m_composed_cmp pa rb = m_composed_cmp fl rb /\ m_name_eq pa fl = Ok true /\ m_name_cmp pa fl = Ok Eq.
+Proof. exact parsed_same_as_flat. Qed.
+Print Assumptions C04_parsed_same_as_flat.
+
+Theorem C04_parsed_uncompressed_embedding : forall pre n post, valid_abs n -> let m := pre ++ wire_abs n ++ post in exists p, parse_ref m (N.of_nat (length pre)) (mlen m) = Ok p /\ pn_compressed p = false /\ denotes (NParsed m p) (n ++ [[]]).
+Proof. exact parsed_uncompressed_embedding. Qed.
+Print Assumptions C04_parsed_uncompressed_embedding.
+
+Theorem C04_parsed_uncompressed_same_as_flat : forall pre n post b rb, valid_abs n -> valid_abs b -> denotes rb (b ++ [[]]) -> let m := pre ++ wire_abs n ++ post in exists p, parse_ref m (N.of_nat (length pre)) (mlen m) = Ok p /\ m_name_eq (NParsed m p) rb = Ok (name_eqb n b) /\ m_name_cmp (NParsed m p) rb = Ok (name_cmp n b) /\ m_name_hash (NParsed m p) = Ok (name_hash_feed n).
+Proof. exact parsed_uncompressed_same_as_flat. Qed.
+Print Assumptions C04_parsed_uncompressed_same_as_flat.
 
 Theorem C04_charstr_cmp_eq_iff : forall a b, m_charstr_cmp a b = Eq <-> m_charstr_eq a b = true.
 Proof. exact charstr_cmp_eq_iff. Qed.
@@ -148,6 +168,26 @@ Print Assumptions C04_svcb_canonical_refuted.
 Theorem C04_svcb_canonical_case_refuted : svcb_canonical_cmp_gen false 1 [[65]] [] 1 [[97]] [] = Ok Eq /\ lex_cmp (svcb_enc 1 [[65]] []) (svcb_enc 1 [[97]] []) = Lt.
 Proof. exact svcb_canonical_case_refuted. Qed.
 Print Assumptions C04_svcb_canonical_case_refuted.
+
+Theorem C04_prefixed_name_cmp_bytewise : forall composed pre1 t1 tail1 pre2 t2 tail2, length pre1 = length pre2 -> valid_abs t1 -> valid_abs t2 -> ~ name_cmp_used composed pre1 pre2 t1 t2 -> prefixed_name_cmp_gen composed pre1 t1 tail1 pre2 t2 tail2 = Ok (lex_cmp (pre1 ++ wire_abs t1 ++ tail1) (pre2 ++ wire_abs t2 ++ tail2)).
+Proof. exact prefixed_name_cmp_bytewise. Qed.
+Print Assumptions C04_prefixed_name_cmp_bytewise.
+
+Theorem C04_ipseckey_canonical_bytewise : forall composed p1 a1 g1 k1 p2 a2 g2 k2, valid_abs g1 -> valid_abs g2 -> ~ name_cmp_used composed [p1; 3; a1] [p2; 3; a2] g1 g2 -> prefixed_name_cmp_gen composed [p1; 3; a1] g1 k1 [p2; 3; a2] g2 k2 = Ok (lex_cmp (ipseckey_enc p1 a1 g1 k1) (ipseckey_enc p2 a2 g2 k2)).
+Proof. exact ipseckey_canonical_bytewise. Qed.
+Print Assumptions C04_ipseckey_canonical_bytewise.
+
+Theorem C04_ipseckey_canonical_refuted : exists g1 g2, valid_abs g1 /\ valid_abs g2 /\ prefixed_name_cmp_gen false [10; 3; 2] g1 [1] [10; 3; 2] g2 [1] = Ok Gt /\ lex_cmp (ipseckey_enc 10 2 g1 [1]) (ipseckey_enc 10 2 g2 [1]) = Lt.
+Proof. exact ipseckey_canonical_refuted. Qed.
+Print Assumptions C04_ipseckey_canonical_refuted.
+
+Theorem C04_ipseckey_gateway_hash_total : forall gw, no_panic (ipseckey_gateway_hash_gen false gw).
+Proof. exact ipseckey_gateway_hash_total. Qed.
+Print Assumptions C04_ipseckey_gateway_hash_total.
+
+Theorem C04_ipseckey_gateway_hash_refuted : ipseckey_gateway_hash_gen true None = Panic P_TODO.
+Proof. exact ipseckey_gateway_hash_refuted. Qed.
+Print Assumptions C04_ipseckey_gateway_hash_refuted.
 
 Theorem C04_unknown_eq_hash : forall r1 d1 r2 d2, unknown_eq_gen true r1 d1 r2 d2 = true -> m_zone_unknown_hash r1 d1 = m_zone_unknown_hash r2 d2.
 Proof. exact unknown_eq_hash. Qed.
